@@ -30,6 +30,10 @@ def run(rep):
             o.witness = sc.replay_production(o, 'proc')
         rep.add(o)
     terminal_table_obligations(rep)
+    # the statements after the procedure start from the reset state (no flag or level survives the boundary)
+    pc = sc._pc('C17')
+    for k in ('trivia', 'other'):
+        rep.add(grammar.check_after_terminator(pc, 'C17', k))
     rep.functions += [grammar.PROCESS, CSL, 'sqlparse.engine.statement_splitter.StatementSplitter._reset']
     common.run_bounded(rep, 'C17', rep.tier, rep.seed)
     rep.assumptions += [
